@@ -192,6 +192,7 @@ def finish(ctx: Context, started: float, seed: int, explanation: str, assumption
             'rule_instances': ctx.rule_instances,
             'instance_floors': [{'rule': r, 'matched': c, 'floor': m} for r, c, m in ctx.floors],
             'modules_parsed': stats['modules_parsed'],
+            'functions_proved_equivalent_to_reference': stats['equivalent_functions'],
             'classes_indexed': stats['classes'],
             'functions_indexed': stats['functions'],
             'functions_analysed': sorted(ctx.functions_analysed),
